@@ -1,10 +1,24 @@
-import Pendulum.Drv.Util
-/-! request handler for property C01 (stub until the property is built) -/
+import Pendulum.Drv.DTUtil
+/-! C01 requests: `intz <zref> <wall> <fold> <zref'> <same>`, `intts <zref> <wall> <fold>` -/
 namespace Pendulum.Drv.C01
-open Pendulum Pendulum.Drv
+open Pendulum Pendulum.Drv Pendulum.DTOps
 
-def handle (_zs : Zones) (ws : List String) : Option String :=
+def handle (zs : Zones) (ws : List String) : Option String :=
   match ws with
+  | ["intz", z, w, f, z', same] => do
+    let v ← parseV zs z w f
+    let t ← parseZRef zs z'
+    some (replyV (inTz v t (same == "1")))
+  | ["intz2", z, w, f, z', z''] => do   -- A→B→C
+    let v ← parseV zs z w f
+    let t ← parseZRef zs z'
+    let t' ← parseZRef zs z''
+    match inTz v t false with
+    | .ok r => some (replyV (inTz r t' false))
+    | .error e => some ("err " ++ e.name)
+  | ["intts", z, w, f] => do
+    let v ← parseV zs z w f
+    some (okInts [v.instant / AddDur.US])
   | _ => none
 
 end Pendulum.Drv.C01
